@@ -1,4 +1,4 @@
-import Firefly.Proof.VmmPdt
+import Firefly.Proof.VmmAlloc
 /-!
 # C04 — Page-table operations implement exactly the requested address translation
 
@@ -57,9 +57,11 @@ without changing any translation.
 
 **Proved here (`_partial`)**: the case in which the three upper levels of the page exist (no new
 level): exact post-state — precisely one word of physical memory changes, to `frame<<12 | flags` —
-the hardware's resulting translation of the page, the flush list, and no allocation.  The cases
-that create new levels (allocation, zeroing, allocator failure) are covered by the correspondence
-run and the oracle clauses `map-exact-entry`, `others-unchanged`, `new-level-empty`,
+the hardware's resulting translation of the page, the flush list, and no allocation.  New levels:
+`map_new_level_step` (one level, any level), `map_new_leaf_table` (whole operation, one new level),
+`map_alloc_failure` (allocator empty at the first missing level).  Two or three new levels in one
+call, failure after a partial allocation and the frame rule across a new level are covered by the
+correspondence run and the oracle clauses `map-exact-entry`, `others-unchanged`, `new-level-empty`,
 `alloc-error-iff`, `fail-no-translation-change`. -/
 theorem map_refines_partial {st : St} {R T1 T2 T3 : W} (page frame flags : W) (hw : Window st R)
     (p : Path st.mem R (pageAddr page) T1 T2 T3)
@@ -82,6 +84,72 @@ theorem map_refines_partial {st : St} {R T1 T2 T3 : W} (page frame flags : W) (h
   · have := mmuWalk_leaf_written p (mkEntry frame flags) hd
     simp only [St.flush, St.wrLoc]
     rw [this, mkEntry_low 1#64 (by decide), mkEntry_frame hf hfl]
+
+/-- **Allocation failure changes nothing.** The page's path exists down to level `L < 3`, the
+level-`L` entry is empty and the allocator fails: `Map` returns the allocator's error and the state
+(every word of memory, so every translation of every page) is exactly as before. -/
+theorem map_alloc_failure {st : St} {R : W} (page frame flags : W) (hw : Window st R) (L : Nat) (hL : L < 3) (T : W)
+    (hc : Chain st.mem R (pageAddr page) L T) (hb : st.mem.backed (frameN T) = true)
+    (hp : st.mem.rd (frameN T) (kidx (pageAddr page) L) &&& 1#64 = 0#64)
+    (hh : st.mem.rd (frameN T) (kidx (pageAddr page) L) &&& 128#64 = 0#64)
+    (hf : st.free = [])
+    (hg : (st.protect && frame == st.zeroFrame && (flags &&& fRW) != 0) = false) :
+    mapOp st page frame flags = .ok (eAlloc, st) :=
+  mapOp_allocfail page frame flags hw L hL T hc hb hp hh hf hg
+
+/-- **Creating one new level** (any of the three upper levels, any state): `Map`'s callback links the
+allocator's frame `f` with Present|RW into the empty level-`L` entry and clears *exactly* frame `f` —
+the Memset address it computes from the entry's own virtual address resolves to `f` through the
+window — the window stays intact and the path continues through the (empty) new table. -/
+theorem map_new_level_step {st : St} {R : W} (va : W) (L : Nat) (hL : L < 3) (T : W) (hw : Window st R)
+    (hc : Chain st.mem R va L T) (hb : st.mem.backed (frameN T) = true)
+    (hp : st.mem.rd (frameN T) (kidx va L) &&& 1#64 = 0#64) (hh : st.mem.rd (frameN T) (kidx va L) &&& 128#64 = 0#64)
+    {f : W} {rest : List W} (hf : st.free = f :: rest) (hfo : FrameOK f) (hfb : st.mem.backed f.toNat = true)
+    (hA : f.toNat ≠ frameN (st.cr3 &&& hwMask)) (hR : f.toNat ≠ frameN R)
+    (hfc : ∀ k T', k ≤ L → Chain st.mem R va k T' → f.toNat ≠ frameN T')
+    (hlocA : ¬(frameN T = frameN (st.cr3 &&& hwMask) ∧ kidx va L = 511))
+    (hlocR : ¬(frameN T = frameN R ∧ kidx va L = 511))
+    (hlc : ∀ k T', k < L → Chain st.mem R va k T' → ¬(frameN T = frameN T' ∧ kidx va L = kidx va k))
+    (page frame flags : W) (err : Nat) :
+    mapCb page frame flags L (E va L) (frameN T, kidx va L) err st =
+      .ok ((true, err), allocStep st f rest (frameN T, kidx va L)) ∧
+    Window (allocStep st f rest (frameN T, kidx va L)) R ∧
+    Chain (allocStep st f rest (frameN T, kidx va L)).mem R va (L + 1) (f <<< 12) ∧
+    (∀ j, (allocStep st f rest (frameN T, kidx va L)).mem.rd f.toNat j = 0) :=
+  have h := newLevel va L hL T hw hc hb hp hh hf hfo hfb hA hR hfc hlocA hlocR hlc page frame flags err
+  ⟨h.1, h.2.1, h.2.2, fun j => by simp [allocStep, St.wrLoc]⟩
+
+/-- **`Map` creating the leaf table** (one new level, whole operation): the path exists down to the
+level-2 table whose entry is empty, the allocator hands out a fresh frame `f`.  `Map` succeeds; `f`
+is consumed; afterwards the hardware translates the page to `(frame, flags)`; the new table `f` is
+empty except for the page's entry; the page is flushed. -/
+theorem map_new_leaf_table {st : St} {R T1 T2 : W} (page frame flags : W) (hw : Window st R)
+    (l0 : Link st.mem R (kidx (pageAddr page) 0) T1) (l1 : Link st.mem T1 (kidx (pageAddr page) 1) T2)
+    (hb2 : st.mem.backed (frameN T2) = true)
+    (hp : st.mem.rd (frameN T2) (kidx (pageAddr page) 2) &&& 1#64 = 0#64)
+    (hh : st.mem.rd (frameN T2) (kidx (pageAddr page) 2) &&& 128#64 = 0#64)
+    {f : W} {rest : List W} (hf : st.free = f :: rest) (hfo : FrameOK f) (hfb : st.mem.backed f.toNat = true)
+    (hfd : f.toNat ≠ frameN (st.cr3 &&& hwMask) ∧ f.toNat ≠ frameN R ∧ f.toNat ≠ frameN T1 ∧ f.toNat ≠ frameN T2)
+    (htd : frameN T2 ≠ frameN (st.cr3 &&& hwMask) ∧ frameN T2 ≠ frameN R ∧ frameN T2 ≠ frameN T1)
+    (hfr : FrameOK frame) (hfl : FlagsOK flags)
+    (hg : (st.protect && frame == st.zeroFrame && (flags &&& fRW) != 0) = false) :
+    ∃ st', mapOp st page frame flags = .ok (0, st') ∧ st'.free = rest ∧
+      st'.flushes = st.flushes ++ [pageAddr page] ∧
+      mmuWalk st'.mem (pageAddr page) [39, 30, 21, 12] R =
+        (if flags &&& 1#64 = 0#64 then none else some ((frame <<< 12) + (pageAddr page &&& 0xfff#64))) ∧
+      (∀ j, j ≠ kidx (pageAddr page) 3 → st'.mem.rd f.toNat j = 0) := by
+  obtain ⟨hm, hpath⟩ := mapOp_new_leaf_table page frame flags hw l0 l1 hb2 hp hh hf hfo hfb hfd htd hg
+  have hfN : frameN (f <<< 12) = f.toNat := frameN_shl12 hfo
+  refine ⟨_, hm, rfl, rfl, ?_, ?_⟩
+  · have := mmuWalk_leaf_written hpath (mkEntry frame flags)
+      (by rw [hfN]; exact ⟨hfd.2.1, hfd.2.2.1, hfd.2.2.2⟩)
+    rw [hfN] at this
+    simp only [St.flush, St.wrLoc]
+    rw [this, mkEntry_low 1#64 (by decide), mkEntry_frame hfr hfl]
+  · intro j hj
+    simp only [St.flush, St.wrLoc, allocStep, rd_wr, rd_setFrame]
+    rw [if_neg (fun h => hj h.2.symm)]
+    simp
 
 /-- **All other pages unchanged** by a store to one page-table word: the hardware translation of any
 `va'` whose path never reads that word is the same before and after.  (With `map_refines_partial` /
